@@ -4,6 +4,7 @@ import (
 	"fmt"
 	"net/url"
 	"slices"
+	"strings"
 
 	"github.com/go-playground/validator/v10"
 	"github.com/nyaruka/gocommon/urns"
@@ -79,9 +80,15 @@ func (u *ContactURN) Channel() *Channel { return u.channel }
 
 // SetChannel sets the channel associated with this URN
 func (u *ContactURN) SetChannel(channel *Channel) {
-	scheme, path, query, display := u.urn.ToParts()
+	// a stored URN which doesn't parse can't carry an affinity, it keeps its form
+	if _, err := urns.Parse(string(u.urn)); err != nil {
+		return
+	}
 
-	parsedQuery, _ := url.ParseQuery(query)
+	parsedQuery, _ := u.urn.Query()
+	if parsedQuery == nil {
+		parsedQuery = url.Values{}
+	}
 
 	if channel != nil {
 		parsedQuery.Set("channel", string(channel.UUID()))
@@ -89,15 +96,29 @@ func (u *ContactURN) SetChannel(channel *Channel) {
 		parsedQuery.Del("channel")
 	}
 
-	// rebuilding normalizes and validates the whole URN: a stored URN which doesn't survive that (e.g. it grows past the
-	// length limit when lower-cased) keeps its form and its affinity rather than being replaced by the empty URN
-	urn, err := urns.NewFromParts(scheme, path, parsedQuery, display)
-	if err != nil {
-		return
-	}
-
 	u.channel = channel
-	u.urn = urn
+	u.urn = withQuery(u.urn, parsedQuery.Encode())
+}
+
+var urnQueryEscaper = strings.NewReplacer("%", "%25", "#", "%23", "?", "%3F")
+
+// returns the given (parseable) raw URN with its query component replaced. Only the affinity changes: scheme, path and
+// display stay exactly as they are stored, rather than being normalized and validated again, because what that does
+// depends on the path (a tel path without + can become an E164 number of another country, a path can stop being valid)
+func withQuery(urn urns.URN, query string) urns.URN {
+	raw, fragment := string(urn), ""
+
+	// in a raw URN # and ? only occur as the separators of the components, elsewhere they are escaped
+	if i := strings.IndexByte(raw, '#'); i >= 0 {
+		raw, fragment = raw[:i], raw[i:]
+	}
+	if i := strings.IndexByte(raw, '?'); i >= 0 {
+		raw = raw[:i]
+	}
+	if query != "" {
+		raw += "?" + urnQueryEscaper.Replace(query)
+	}
+	return urns.URN(raw + fragment)
 }
 
 func (u *ContactURN) String() string {
